@@ -80,6 +80,7 @@ Fixpoint unesc (fuel : nat) (s : list N) : ures :=
       | [] => UOob                                       (* read past the end of the block *)
       | c :: tl =>
           if c =? 34 then UOk [] tl                      (* closing quote: value[len] = 0, the rest starts after it *)
+          else if c =? 0 then UFail                       (* the text ends inside the value (/repo commit 214eeaf) *)
           else
             match (if c =? 38 then match_entity tl else Some (c, tl)) with
             | None => UFail                              (* unknown entity: return -1 *)
